@@ -1,3 +1,258 @@
-/- C02 — property theorems (stub: the property is not claimed yet). -/
+/-
+  C02 — Best-effort tree construction follows the token sequence, however nested.
+
+  Property theorems only.  Model: AHP/Model/Builder.lean (the handlers of Parser.py as a stack machine,
+  `feedTokens` = first pass + wrapper fallback).  Specification: AHP/Spec/Build.lean (recursive descent,
+  no stack).  Helper lemmas: AHP/Lemmas/Builder*.lean.
+-/
+import AHP.Lemmas.BuilderTop
 namespace AHP.C02
+open AHP AHP.Spec
+
+/-- the input does not mention the reserved wrapper name (outside the property's domain) -/
+def NoWrapper (toks : List Token) : Prop := ∀ t ∈ toks, mentionsWrapper t = false
+
+/-! #### table obligation: the specification's void list is the source's -/
+theorem void_table (n : Str) : AHP.isVoid n = Spec.isVoid n := isVoid_eq n
+theorem wrapper_is_not_void : Spec.isVoid wrapperName = false := by decide
+
+/-! #### doctype -/
+theorem doctype_fold (toks : List Token) (s s' : BState) (h : run s toks = .ok s') :
+    s'.doctype = toks.foldl Spec.doctypeStep s.doctype := by
+  rw [run_eq] at h
+  cases hr : runT s.tree toks <;> rw [hr] at h <;> simp [Outcome.map] at h
+  rw [← h, stepD_eq_spec]
+
+private theorem fold_wrap (toks : List Token) :
+    (wrapToks toks).foldl stepD none = toks.foldl stepD none := by
+  unfold wrapToks
+  cases h : leadDoctype toks with
+  | none => simp [List.foldl_append, stepD]
+  | some p =>
+    obtain ⟨pre, r⟩ := p
+    have htoks : toks = pre ++ r := by
+      unfold leadDoctype at h
+      split at h
+      · simp at h; rw [← h.1, ← h.2]; rfl
+      · split at h
+        · simp at h; rw [← h.1, ← h.2]; rfl
+        · simp at h
+      · simp at h
+    rw [htoks]
+    simp [List.foldl_append, stepD]
+
+private theorem all_of_dropWhile_nil (p : Char → Bool) : ∀ l : Str, l.dropWhile p = [] → ∀ x ∈ l, p x = true := by
+  intro l
+  induction l with
+  | nil => intro _ x hx; simp at hx
+  | cons c cs ih =>
+    intro h x hx
+    by_cases hc : p c = true
+    · simp only [List.dropWhile_cons, hc, if_true] at h
+      rcases List.mem_cons.mp hx with e | e
+      · rw [e]; exact hc
+      · exact ih h x e
+    · simp [List.dropWhile_cons, hc] at h
+
+private theorem dropWhile_nil_of_all (p : Char → Bool) : ∀ l : Str, (∀ x ∈ l, p x = true) → l.dropWhile p = [] := by
+  intro l
+  induction l with
+  | nil => intro _; rfl
+  | cons c cs ih =>
+    intro h
+    have hc := h c List.mem_cons_self
+    simp only [List.dropWhile_cons, hc, if_true]
+    exact ih (fun x hx => h x (List.mem_cons_of_mem _ hx))
+
+private theorem wsNL_all (ws : Str) : wsNL ws = true → ∀ c ∈ ws, isWs c = true := by
+  induction ws with
+  | nil => intro _ c hc; simp at hc
+  | cons c cs ih =>
+    intro h x hx
+    unfold wsNL at h
+    by_cases hc : c = '\n'
+    · subst hc
+      have h' : wsNL cs = true := by simpa [wsNL, List.dropWhile_cons] using h
+      rcases List.mem_cons.mp hx with e | e
+      · rw [e]; decide
+      · exact ih h' x e
+    · have h2 : (c :: cs).dropWhile (fun c => c = ' ' || c = '\t') = [] := by
+        simpa [List.dropWhile_cons, hc] using h
+      have := all_of_dropWhile_nil _ _ h2 x hx
+      simp at this
+      rcases this with e | e <;> subst e <;> decide
+
+private theorem wsNL_blank (ws : Str) (h : wsNL ws = true) : isBlank ws = true := by
+  unfold isBlank strip lstrip
+  rw [dropWhile_nil_of_all isWs ws (wsNL_all ws h)]
+  rfl
+
+private theorem pre_skip (toks pre r : List Token) (h : leadDoctype toks = some (pre, r)) (l : List Token) :
+    toks = pre ++ r ∧ runT TState.init (pre ++ l) = runT TState.init l := by
+  unfold leadDoctype at h
+  split at h
+  · simp at h; obtain ⟨h1, h2⟩ := h; subst h1; subst h2
+    exact ⟨rfl, by simp [runT, stepT]⟩
+  · split at h
+    · rename_i ws d r' hws
+      simp at h; obtain ⟨h1, h2⟩ := h; subst h1; subst h2
+      refine ⟨rfl, ?_⟩
+      have hstep : stepT TState.init (.data ws) = .ok TState.init := by
+        have e := wsNL_blank ws hws
+        by_cases he : ws.isEmpty = true
+        · simp [stepT, he]
+        · simp [stepT, he, e, TState.init]
+      simp only [List.cons_append, List.nil_append, runT, hstep]
+      simp [stepT]
+    · simp at h
+  · simp at h
+
+/-- the wrapped pass: everything the input contains becomes content of the wrapper, whatever it is -/
+theorem wrapped_pass (ts : List Token) (hw : NoWrapper ts) (k : Nat) (hk : ts.length < k) :
+    (runT TState.init (.start wrapperName [] :: ts ++ [.end_ wrapperName])).fin
+      = .ok ⟨[], some (.elem wrapperName AttrState.empty false (items k [] ts).1)⟩ := by
+  let s1 : TState := ⟨[⟨wrapperName, AttrState.empty, []⟩], none⟩
+  have hs : stepT TState.init (.start wrapperName []) = .ok s1 := by
+    simp [stepT, handleStart, TState.init, TState.hasRoot, wrapper_lower, wrapper_not_void, intake, s1]
+  let K := ts.length + 3
+  have hitems := runT_items K s1 (ts ++ [.end_ wrapperName]) (by simp [K]) (by simp [s1])
+  have hnames : names s1 = [] ++ [wrapperName] := rfl
+  have hwm : ∀ t ∈ ts, (match t with
+      | .start n _ => lower n ≠ wrapperName | .startend n _ => lower n ≠ wrapperName
+      | .end_ n => n ≠ wrapperName | _ => True) := by
+    intro t ht
+    have := hw t ht
+    cases t <;> simp_all [mentionsWrapper]
+  rw [hnames, items_append_stop wrapperName K [] ts (by simp [K]) hwm] at hitems
+  have hrest : (items K [] ts).2 = [] := by
+    rcases (items_rest K [] ts (by simp [K])).1 with h | ⟨m, r2, _, hm⟩
+    · exact h
+    · simp at hm
+  rw [hrest] at hitems
+  simp only [List.nil_append] at hitems
+  simp only [List.cons_append, runT, hs]
+  rw [hitems]
+  have hs1 : s1 = { (⟨[], none⟩ : TState) with stack := ⟨wrapperName, AttrState.empty, []⟩ :: (⟨[], none⟩ : TState).stack } := rfl
+  have hclose := stepT_close_own ⟨[], none⟩ wrapperName AttrState.empty (items K [] ts).1
+  rw [← hs1] at hclose
+  simp only [runT, hclose, addNode, Outcome.fin, finish_nil]
+  rw [items_fuel K k [] ts (by simp [K]) hk]
+
+private theorem ofPass_eq (second : Bool) (s : BState) (ts : List Token) (tr : TState)
+    (h : (runT s.tree ts).fin = .ok tr) :
+    FeedResult.ofPass second (run s ts) = .doc ⟨ts.foldl stepD s.doctype, tr.root⟩ second := by
+  rw [run_eq]
+  cases hr : runT s.tree ts <;> rw [hr] at h <;> simp [Outcome.fin] at h
+  simp [Outcome.map, FeedResult.ofPass, BState.doc, h]
+
+/-- **C02a.** For every token sequence — any order, however badly nested — that does not mention the
+    reserved wrapper name, the parser (first pass, and the wrapper fallback when the first pass meets a
+    second top-level node) builds exactly the document of the stack-free recursive-descent specification:
+    same doctype, same tree, single root or wrapped top-level list. -/
+theorem feed_eq_spec (toks : List Token) (hw : NoWrapper toks) :
+    feedTokens toks = .doc (Spec.build toks).1 (Spec.build toks).2 := by
+  have hpro := runT_prolog (toks.length + 1) toks (Nat.lt_succ_self _)
+  unfold feedTokens Spec.build
+  cases hsingle : single (toks.length + 1) toks with
+  | some r =>
+    rw [hsingle] at hpro
+    have hE := ofPass_eq false BState.init toks ⟨[], r⟩ hpro
+    have hrun : run BState.init toks = (runT TState.init toks).map (fun tr => ⟨tr, toks.foldl stepD none⟩) :=
+      run_eq toks BState.init
+    cases hr : runT TState.init toks with
+    | ok tr =>
+      rw [hrun, hr] at hE ⊢
+      simp only [Outcome.map] at hE ⊢
+      rw [hE]
+      simp [doctypeOf, stepD_eq_spec, BState.init]
+    | multipleRoot => rw [hr] at hpro; simp [Outcome.fin] at hpro
+    | invalidClose => rw [hr] at hpro; simp [Outcome.fin] at hpro
+    | missedClose => rw [hr] at hpro; simp [Outcome.fin] at hpro
+    | invalidAttr => rw [hr] at hpro; simp [Outcome.fin] at hpro
+  | none =>
+    rw [hsingle] at hpro
+    have hrun : run BState.init toks = .multipleRoot := by
+      rw [run_eq]
+      cases hr : runT BState.init.tree toks <;> simp only [BState.init] at hr <;> rw [hr] at hpro <;>
+        simp [Outcome.fin, Outcome.map] at hpro ⊢
+    rw [hrun]
+    simp only
+    -- the second pass
+    have hsecond : (runT TState.init (wrapToks toks)).fin
+        = .ok ⟨[], some (.elem wrapperName AttrState.empty false
+            (items (toks.length + 1) [] (topTokens toks)).1)⟩ := by
+      unfold wrapToks topTokens
+      cases hl : leadDoctype toks with
+      | none => exact wrapped_pass toks hw _ (Nat.lt_succ_self _)
+      | some p =>
+        obtain ⟨pre, r⟩ := p
+        obtain ⟨htoks, hskip⟩ := pre_skip toks pre r hl (.start wrapperName [] :: r ++ [.end_ wrapperName])
+        simp only [List.append_assoc] at hskip ⊢
+        rw [hskip]
+        have hwr : NoWrapper r := fun t ht => hw t (by rw [htoks]; exact List.mem_append_right _ ht)
+        exact wrapped_pass r hwr _ (by rw [htoks]; simp; omega)
+    have hE := ofPass_eq true BState.init (wrapToks toks) _ hsecond
+    rw [hE]
+    simp only [BState.init, doctypeOf]
+    rw [fold_wrap, stepD_eq_spec]
+
+/-- **C02 (void / self-closed elements never stay open; text, references and comments verbatim).**
+    Read off the specification: these are its defining equations. -/
+theorem spec_void_is_leaf (k : Nat) (open_ : List Str) (n : Str) (a : List Attr) (ts : List Token)
+    (hv : Spec.isVoid (lower n) = true) :
+    items (k + 1) open_ (.start n a :: ts)
+      = (.elem (lower n) (intake a AttrState.empty) true [] :: (items k open_ ts).1, (items k open_ ts).2) := by
+  simp [items, hv]
+
+theorem spec_selfclosed_is_leaf (k : Nat) (open_ : List Str) (n : Str) (a : List Attr) (ts : List Token) :
+    items (k + 1) open_ (.startend n a :: ts)
+      = (.elem (lower n) (intake a AttrState.empty) true [] :: (items k open_ ts).1, (items k open_ ts).2) := by
+  simp [items]
+
+theorem spec_stray_end_ignored (k : Nat) (open_ : List Str) (n : Str) (ts : List Token)
+    (h : open_.contains n = false) : items (k + 1) open_ (.end_ n :: ts) = items k open_ ts := by
+  simp only [items, h, Bool.false_eq_true, if_false]
+
+theorem spec_text_verbatim (k : Nat) (open_ : List Str) (e : Str) (ts : List Token) :
+    items (k + 1) open_ (.entity e :: ts) = (.text ('&' :: e ++ [';']) :: (items k open_ ts).1, (items k open_ ts).2) := by
+  simp [items, textOf]
+
+/-- **C02c (entry points).** In the model every entry point is `feedTokens ∘ tokenize ∘ decode`; that they
+    agree is the composition — the substance is in the tie (parseStr(str) / bytes / parseFile / constructor). -/
+theorem entry_points_agree (decode₁ decode₂ : List UInt8 → Str) (tok : Str → List Token) (b : List UInt8)
+    (h : decode₁ b = decode₂ b) : feedTokens (tok (decode₁ b)) = feedTokens (tok (decode₂ b)) := by rw [h]
+
+/-- **C02d (reuse).** A parse starts from the initial state whatever was parsed before: the result of the
+    last parse of any history is the result of parsing that input alone (`reset` precedes every parse). -/
+def parseHistory : List (List Token) → Option FeedResult
+  | [] => none
+  | [t] => some (feedTokens t)
+  | _ :: h => parseHistory h
+
+theorem reuse_reflects_last_only (h : List (List Token)) (last : List Token) :
+    parseHistory (h ++ [last]) = some (feedTokens last) := by
+  induction h with
+  | nil => rfl
+  | cons t h ih =>
+    cases h with
+    | nil => rfl
+    | cons t2 h2 => simpa [parseHistory] using ih
+
+/-- **C02b.** `getRootNodes` of a wrapped document lists the top-level elements in order; `getHTML`
+    serialises every top-level block (text included) in order. -/
+theorem rootNodes_wrapped (dt : Option Str) (kids : List Node) :
+    (Doc.rootNodes ⟨dt, some (.elem wrapperName AttrState.empty false kids)⟩) = kids.filter (fun k => !k.isText) := by
+  simp [Doc.rootNodes]
+
+theorem html_wrapped (kids : List Node) :
+    docHTML none (.elem wrapperName AttrState.empty false kids) = htmlL kids := by
+  simp [docHTML, Node.innerHTML]
+
+/-! #### Non-vacuity -/
+example : NoWrapper [.start "a".toList [], .data "x".toList, .end_ "b".toList, .start "br".toList []] := by
+  intro t ht; simp at ht; rcases ht with h | h | h | h <;> subst h <;> decide
+
+example : (Spec.build [.start "a".toList [], .start "b".toList [], .data "x".toList, .end_ "a".toList,
+    .data "y".toList]).2 = true := by decide
+
 end AHP.C02
